@@ -254,6 +254,17 @@ def check(model, tier):
                     run.ok("R19.2", inst)
                 else:
                     run.fail("R19.2", inst, "make_leaf does not forward name= / name_prefix= to LeafRelation", fi=f, node=call)
+    # (e) the requested prefix travels unchanged: no function re-binds its prefix parameter
+    for f in m.all_functions():
+        for pname in ("name_prefix", "prefix"):
+            if pname not in f.params or f.module.rel.startswith("tests"):
+                continue
+            stores = [n for n in ast.walk(f.node) if isinstance(n, ast.Name) and n.id == pname and isinstance(n.ctx, ast.Store)]
+            inst = f"{f.module.rel}:{f.qualname}:{pname}:as-given"
+            if stores:
+                run.fail("R19.2", inst, f"{f.qualname} re-binds its `{pname}` parameter before using it: the generated name no longer begins with the prefix the caller asked for", fi=f, node=stores[0])
+            else:
+                run.ok("R19.2", inst)
     run.assume("uuid.uuid4 values are pairwise distinct and uuid4 is safe to call from several threads")
     run.assume("names supplied explicitly by the caller (name=...) are the caller's responsibility")
     from ..rules.foundation import run_foundation
